@@ -302,3 +302,68 @@ pub fn reseed_thread_rng() {
     let _ = rand::rng().reseed();
 }
 // ---- idm-auth end
+// ---- idm-reset begin
+// The `server::keys` module is crate-private. These wrappers make exactly the trait calls every
+// production signer/verifier makes on the handle a transaction returns for a key object
+// (`get_key_providers().get_key_object_handle(uuid)`), nothing else.
+fn vh_key_handle<'a, T: QueryServerTransaction<'a>>(
+    txn: &T,
+    key_object: Uuid,
+) -> Result<std::sync::Arc<crate::server::keys::KeyObject>, OperationError> {
+    use crate::server::keys::KeyProvidersTransaction;
+    txn.get_key_providers()
+        .get_key_object_handle(key_object)
+        .ok_or(OperationError::KP0031KeyObjectNotFound)
+}
+
+/// Sign with the key object's currently valid signer; `alg` is "es256", "hs256" or "rs256".
+pub fn key_object_jws_sign<'a, T: QueryServerTransaction<'a>>(
+    txn: &T,
+    key_object: Uuid,
+    alg: &str,
+    jws: &compact_jwt::Jws,
+    ct: Duration,
+) -> Result<compact_jwt::JwsCompact, OperationError> {
+    let h = vh_key_handle(txn, key_object)?;
+    match alg {
+        "es256" => h.jws_es256_sign(jws, ct),
+        "hs256" => h.jws_hs256_sign(jws, ct),
+        "rs256" => h.jws_rs256_sign(jws, ct),
+        _ => Err(OperationError::InvalidState),
+    }
+}
+
+pub fn key_object_jws_verify<'a, T: QueryServerTransaction<'a>>(
+    txn: &T,
+    key_object: Uuid,
+    jwsc: &compact_jwt::JwsCompact,
+) -> Result<compact_jwt::Jws, OperationError> {
+    vh_key_handle(txn, key_object)?.jws_verify(jwsc)
+}
+
+pub fn key_object_jwe_encrypt<'a, T: QueryServerTransaction<'a>>(
+    txn: &T,
+    key_object: Uuid,
+    jwe: &compact_jwt::jwe::Jwe,
+    ct: Duration,
+) -> Result<compact_jwt::compact::JweCompact, OperationError> {
+    vh_key_handle(txn, key_object)?.jwe_a128gcm_encrypt(jwe, ct)
+}
+
+pub fn key_object_jwe_decrypt<'a, T: QueryServerTransaction<'a>>(
+    txn: &T,
+    key_object: Uuid,
+    jwec: &compact_jwt::compact::JweCompact,
+) -> Result<compact_jwt::jwe::Jwe, OperationError> {
+    vh_key_handle(txn, key_object)?.jwe_decrypt(jwec)
+}
+
+/// The public key set the key object advertises for ES256 (what relying parties verify with).
+pub fn key_object_es256_jwks<'a, T: QueryServerTransaction<'a>>(
+    txn: &T,
+    key_object: Uuid,
+) -> Result<Option<compact_jwt::JwkKeySet>, OperationError> {
+    Ok(vh_key_handle(txn, key_object)?.jws_es256_jwks())
+}
+
+// ---- idm-reset end
